@@ -140,7 +140,7 @@ def make_case(cs, rnd):
         slots, leaves = faults.index(prog)
         if leaves:
             struct, nid, top = rnd.choice(leaves)
-            struct[1] = [rnd.choice(["runaway", "runaway", "lazyrunaway"]), rnd.choice([120, 300, 700]), rnd.choice([0, 0, 1, 2, 3])]
+            struct[1] = [rnd.choice(["runaway", "runaway", "lazyrunaway"]), rnd.choice([120, 300, 700]), rnd.choice([0, 0, 1, 2, 3, 4, 4])]
             opts["max_stack"] = rnd.choice([50, 100])
             # bodies must not swallow the guard's RuntimeError and continue on a reset scheduler
             for node in prog["nodes"]:
@@ -316,6 +316,20 @@ def run_unit(unit, progress):
                 res["faults"].append("cannot parse str(scheduler): %r" % txt[:200])
             elif parsed[0] != 0 or parsed[2] != "None":
                 problems.append(("str(get_scheduler())", txt[:300]))
+            # scoped values and attributes are back to what they were before the computation, however it ended
+            import gc
+
+            gc.collect()
+            for name, dv in rt.defaults.items():
+                cur = rt.read(None, name)
+                if cur != dv:
+                    problems.append(("scoped value %s after the computation" % name, repr(cur)[:80]))
+            # ... and no task still running ever read the override of an abandoned runaway level
+            for fr in rt.frames.values():
+                for r_ in fr.received:
+                    if r_[0] == "read" and isinstance(r_[2][1], tuple) and r_[2][1][:1] == ("runaway-level",):
+                        problems.append(("read by task %r" % (fr.path,), repr(r_[2][1])))
+                        break
             for what, val in problems:
                 rt.violation("scheduler-not-clean-after-computation", {"what": what, "value": val, "computation_kind": opts["kind"], "outcome": tl.short(out[:2], 200)})
             # ---- canary on the same scheduler
